@@ -240,7 +240,10 @@ def generate(rng, ntrees, ntu=8, drop=frozenset()):
                 for vt, v in zip(vtoks, vals):
                     orc = oracle(tr.pats, v if ty in ('str', 'sv', 'cstr') else None)
                     lines.append('%s | %s | %s' % (' '.join(tr.toks), vt, ' '.join(orc) if orc else '-'))
-                    LINE2CPP.setdefault(lines[-1], '%s  evaluated on %s by %s' % (tr.cpp, vt, run))
+                    texts = LINE2CPP.setdefault(lines[-1], [])
+                    t_ = '%s  evaluated on %s by %s' % (tr.cpp, vt, run)
+                    if t_ not in texts and len(texts) < 4:
+                        texts.append(t_)
             # a matcher held in a named variable, composed (copied, not consumed) and then used again: composing must
             # leave the operand as it was
             if tr.toks[0] not in ('val', 'any', 'not', 'deref') and reuse_ok(tr.cpp) and (len(tr.cpp) % 3 != 0) and (bid + 'r') not in drop:
